@@ -29,6 +29,72 @@ def _unit_worker(args):
     return R.verify_unit(unit, timeout_ms)
 
 
+def _unit_child(conn, unit, timeout_ms):
+    try:
+        conn.send(R.verify_unit(unit, timeout_ms))
+    except Exception:  # pragma: no cover
+        conn.send({"unit": list(unit), "obligations": [], "error": traceback.format_exc(), "sha": None, "file": None})
+    finally:
+        conn.close()
+
+
+def run_units_robust(units, timeout_ms, hard_s, jobs=16):
+    """One fresh process per unit, at most `jobs` at a time, each under a hard wall-clock limit: the solver's own
+    timeout is not always honoured (a z3 call was seen spinning for two hours), so a unit that exceeds the limit is
+    killed and started once more in a new process; a second overrun is reported as a tool failure of that unit."""
+    ctx = mp.get_context("fork")
+    pending = list(enumerate(units))
+    results = [None] * len(units)
+    running = {}
+
+    def start(idx, attempt):
+        parent, child = ctx.Pipe(duplex=False)
+        p = ctx.Process(target=_unit_child, args=(child, units[idx], timeout_ms), daemon=True)
+        p.start()
+        child.close()
+        running[idx] = (p, parent, time.time(), attempt)
+
+    def fail(idx, msg):
+        kind, name, variant = units[idx]
+        results[idx] = {"unit": [kind, name, variant], "obligations": [], "error": msg, "sha": None, "file": None}
+
+    while pending or running:
+        while pending and len(running) < jobs:
+            idx, _u = pending.pop(0)
+            start(idx, 0)
+        for idx, (p, conn, t0, attempt) in list(running.items()):
+            if conn.poll(0):
+                try:
+                    results[idx] = conn.recv()
+                except EOFError:
+                    results[idx] = None
+                p.join(5)
+                if p.is_alive():
+                    p.kill()
+                del running[idx]
+                if results[idx] is None:
+                    if attempt < 1:
+                        start(idx, attempt + 1)
+                    else:
+                        fail(idx, "worker process died without a result (twice)")
+            elif not p.is_alive():
+                del running[idx]
+                if attempt < 1:
+                    start(idx, attempt + 1)
+                else:
+                    fail(idx, "worker process died without a result (twice)")
+            elif time.time() - t0 > hard_s:
+                p.kill()
+                p.join(5)
+                del running[idx]
+                if attempt < 1:
+                    start(idx, attempt + 1)
+                else:
+                    fail(idx, "unit exceeded the hard wall-clock limit of %d s twice (solver hang)" % hard_s)
+        time.sleep(0.05)
+    return results
+
+
 def _asts_of(d):
     """every AST fragment of a contract / lemma / spec definition"""
     out = []
@@ -269,8 +335,7 @@ def main(argv=None):
     units = [] if a.only_rt else units_for(db, prop)
     results = []
     if units:
-        with mp.Pool(min(16, max(1, len(units))), maxtasksperchild=1) as pool:
-            results = pool.map(_unit_worker, [(u, timeout_ms) for u in units], chunksize=1)
+        results = run_units_robust(units, timeout_ms, 300 if tier == "quick" else 1800)
     crashed = [r for r in results if r["error"]]
     rt = None if a.no_rt else run_rt(prop, tier, seed)
     known = load_known()
